@@ -209,6 +209,20 @@ harness/extractors/exprs_sex.py, and the statement-shape reader harness/extracto
   `&& || !`; `.values` transparent; `self.m(args)` an opaque mask atom `m_args`; `<x>.<col> == self.<label>` the atom
   `<col>_eq_<label>`; `m &= e`; `arr = np.zeros(..)` / `self.copy()` start an element at 0 (the CHANGE of the element for a
   copy), `arr[mask] = c`, `arr[mask, "col"] += c` update it; `if p is None: p = ...` is skipped for a parameter given.
+
+Loop-body reading (`emit_loop`, `Fn(..., loop_mode=True)`; added for C11, used by `extractors/exprs_haar.py` only)
+* the body of ONE iteration of a `for` loop is read as a function: the value a target (a local name or an element
+  `result[k]`) holds at the END of the iteration, in terms of the values at its START.  Statements the target does
+  not depend on are dropped (backward slice at statement granularity; an `if` is one statement);
+* an element read `name[index]` whose index is not a mask becomes the parameter `name_at_<index text>` (`signal[k - 1]`
+  -> `signal_at_k_1`): the VALUE of that element is an input of the formula; WHICH element it is, is tied separately
+  through the index expressions (`highEnd`, `lowEnd`), which are translated with `typ="Int"` (integer arithmetic:
+  `+ - *`, comparisons, no division);
+* a local bound once in the iteration to an expression without element reads (`prev = k - 1`) is inlined where it
+  is used as an index, so that `signal[prev]` and `signal[k - 1]` are the same parameter;
+* `math.sqrt(e)` becomes the parameter `sqrt_<text of e>` (the double is an input of the models);
+* the parameters of a loop-body definition are listed in alphabetical order (not in order of first mention), so
+  that reordering operands or independent statements keeps the signature.
 """
 from __future__ import annotations
 
@@ -238,13 +252,25 @@ def _num_literal(e):
     return None
 
 
+def _ident(text):
+    """source text -> identifier fragment (`k - 1` -> `k_1`, `stepHalfSize / 2` -> `stepHalfSize_2`)"""
+    import re
+    return re.sub(r"_+", "_", re.sub(r"[^A-Za-z0-9]+", "_", text)).strip("_")
+
+
+def _elem_name(sub):
+    return sub.value.id + "_at_" + _ident(ast.unparse(sub.slice))
+
+
 class Fn:
     def __init__(self, fn: ast.FunctionDef, given=(), absent=(), default_on_raise=None, rename=None, callees=None,
-                 pieces=False, atoms=None, num="Rat", columns=False, sort_params=False, bare_columns=False, opaque=()):
+                 pieces=False, atoms=None, num="Rat", columns=False, sort_params=False, bare_columns=False, opaque=(), loop_mode=False, typ="Rat"):
         self.bare_columns = bare_columns   # read `tbl["name"]` as the parameter `name`, masks built with | & ~ (C14 level functions)
         self.pieces = pieces          # the additional reading rules for pieces of larger functions
         self.atoms = atoms or {}      # verbatim source text -> parameter name (elementwise reading)
         self.num = num                # "Rat" | "Int"
+        self.loop_mode = loop_mode   # loop-body reading: element reads are parameters (see the module docstring)
+        self.typ = typ               # "Rat" (default) or "Int" (index arithmetic)
         self.callees = callees or {}
         self.columns = columns          # read `table["col"]` as the parameter `col_<col>` (C17 additions)
         self.sort_params = sort_params  # discovered parameters in alphabetical order instead of order of first use
@@ -372,6 +398,10 @@ class Fn:
             if isinstance(e.value, bool) or e.value is None:
                 raise Untranslatable(f"constant {e.value!r} in arithmetic position")
             if isinstance(e.value, (int, float)):
+                if self.typ == "Int":
+                    if not isinstance(e.value, int):
+                        raise Untranslatable(f"non-integer constant {e.value!r} in index arithmetic")
+                    return f"({e.value} : Int)" if e.value >= 0 else f"(({e.value}) : Int)"
                 return _rat(e.value)
             raise Untranslatable(f"constant {e.value!r}")
         if isinstance(e, ast.Name):
@@ -379,6 +409,12 @@ class Fn:
                 return env[e.id]
             return self.param(e.id)
         if isinstance(e, ast.Subscript):
+            if self.loop_mode and isinstance(e.value, ast.Name) and not (
+                    isinstance(e.slice, ast.Name) and env.get(e.slice.id, "").startswith("MASK:")):
+                key = _elem_name(e)
+                if key in env:
+                    return env[key]
+                return self.param(key)
             # elementwise reading of `array[mask]`
             if isinstance(e.value, ast.Name) and isinstance(e.slice, ast.Name):
                 return self.expr(e.value, env)
@@ -425,6 +461,8 @@ class Fn:
                 return f"({a} - {b})"
             if isinstance(e.op, ast.Mult):
                 return f"({a} * {b})"
+            if self.typ == "Int" and isinstance(e.op, (ast.Div, ast.FloorDiv)):
+                raise Untranslatable("division in index arithmetic: " + ast.unparse(e))
             if isinstance(e.op, ast.Div):
                 return f"({a} / {b})"
             if isinstance(e.op, ast.FloorDiv):
@@ -435,6 +473,8 @@ class Fn:
         if isinstance(e, ast.Call):
             f = ast.unparse(e.func)
             args = e.args
+            if self.loop_mode and f in ("math.sqrt", "np.sqrt") and len(args) == 1 and self.typ == "Rat":
+                return self.param("sqrt_" + _ident(ast.unparse(args[0])))
             if f in ("abs", "np.abs", "np.absolute") and len(args) == 1:
                 x = self.expr(args[0], env)
                 return f"(if {x} < 0 then -{x} else {x})"
@@ -719,6 +759,10 @@ class Fn:
                 env = dict(env)
                 env[t.id] = self.expr(s.value, env)
                 return self.block(rest, env)
+            if self.loop_mode and isinstance(t, ast.Subscript) and isinstance(t.value, ast.Name):
+                env = dict(env)
+                env[_elem_name(t)] = self.expr(s.value, env)
+                return self.block(rest, env)
             if self.bare_columns and isinstance(t, ast.Subscript) and isinstance(t.value, ast.Name) and t.value.id in env \
                     and isinstance(t.slice, (ast.Compare, ast.BoolOp, ast.BinOp, ast.UnaryOp, ast.Name, ast.Attribute)):
                 # masked plain assignment `x[mask] = v`: where the mask holds, x becomes v
@@ -792,10 +836,13 @@ class Fn:
         sig = [self.rename.get(a.arg, a.arg) for a in self.fn.args.args]
         found = [p for p in self.params if p not in sig]
         ordered = [p for p in sig if p in self.params] + (sorted(found) if self.sort_params else found)
+        if self.loop_mode:
+            ordered = sorted(self.params)   # independent of the order in which the source happens to mention them
         # `2 ** x` parameters replace x itself when x is not otherwise used
         ps = " ".join(ordered)
         fps = f"({' '.join(sorted(self.fparams))} : Rat → Rat) " if self.fparams else ""
-        head = f"def {lean_name} {fps}({ps} : Rat) : Rat :=\n  {body}" if ordered else f"def {lean_name} {fps}: Rat :=\n  {body}"
+        ty = self.typ
+        head = f"def {lean_name} {fps}({ps} : {ty}) : {ty} :=\n  {body}" if ordered else f"def {lean_name} {fps}: {ty} :=\n  {body}"
         doc = f"/-- {comment} -/\n" if comment else ""
         return doc + head, ordered
 
@@ -2798,3 +2845,118 @@ class BoolFn:
         ps = f" ({' '.join(ordered)} : Bool)" if ordered else ""
         doc = f"/-- {comment} -/\n" if comment else ""
         return doc + f"def {lean_name}{ps} : {ty} :=\n  {body}", ordered
+
+
+def _stores_loads(stmt):
+    """names / elements written and read anywhere inside a statement.  An element `a[i]` counts as `a_at_i`; reading
+    or writing an element does NOT read the names of its index (its value is an input, see the reading rules)"""
+    st, ld = set(), set()
+
+    def walk(n):
+        if isinstance(n, ast.Subscript) and isinstance(n.value, ast.Name):
+            (st if isinstance(n.ctx, (ast.Store, ast.Del)) else ld).add(_elem_name(n))
+            return
+        if isinstance(n, ast.Name):
+            (st if isinstance(n.ctx, (ast.Store, ast.Del)) else ld).add(n.id)
+        if isinstance(n, ast.AugAssign):
+            t = n.target
+            if isinstance(t, ast.Name):
+                ld.add(t.id)
+            elif isinstance(t, ast.Subscript) and isinstance(t.value, ast.Name):
+                ld.add(_elem_name(t))
+        for c in ast.iter_child_nodes(n):
+            walk(c)
+    walk(stmt)
+    return st, ld
+
+
+def _resolve_none_tests(body, given, absent):
+    """`if w is None: A else: B` with `w` known to be supplied / absent is replaced by the branch taken"""
+    out = []
+    for s in body:
+        if isinstance(s, ast.If) and isinstance(s.test, ast.Compare) and len(s.test.ops) == 1 \
+                and isinstance(s.test.ops[0], (ast.Is, ast.IsNot)) and isinstance(s.test.left, ast.Name) \
+                and isinstance(s.test.comparators[0], ast.Constant) and s.test.comparators[0].value is None \
+                and s.test.left.id in (set(given) | set(absent)):
+            is_none = s.test.left.id in set(absent)
+            taken = s.body if (is_none == isinstance(s.test.ops[0], ast.Is)) else s.orelse
+            out += _resolve_none_tests(list(taken), given, absent)
+        else:
+            out.append(s)
+    return out
+
+
+def _inline_index_locals(body):
+    """a local that the iteration binds exactly once, by a plain assignment to an expression without element reads
+    (`prev = k - 1`), is replaced by that expression wherever it is used as an INDEX, so that `signal[prev]` and
+    `signal[k - 1]` name the same element"""
+    import copy
+    binds, other = {}, set()
+    for stmt in body:
+        for n in ast.walk(stmt):
+            if isinstance(n, ast.Assign) and len(n.targets) == 1 and isinstance(n.targets[0], ast.Name):
+                binds.setdefault(n.targets[0].id, []).append(n)
+            elif isinstance(n, (ast.AugAssign, ast.For, ast.With, ast.NamedExpr)):
+                for t in ast.walk(n.target if hasattr(n, "target") else n):
+                    if isinstance(t, ast.Name) and isinstance(t.ctx, ast.Store):
+                        other.add(t.id)
+    single = {k: v[0].value for k, v in binds.items()
+              if len(v) == 1 and k not in other and v[0] in body
+              and not any(isinstance(x, (ast.Subscript, ast.Call)) for x in ast.walk(v[0].value))}
+
+    class T(ast.NodeTransformer):
+        def visit_Subscript(self, node):
+            node.value = self.visit(node.value)
+            node.slice = S().visit(node.slice)
+            return node
+
+    class S(ast.NodeTransformer):
+        def visit_Name(self, node):
+            if isinstance(node.ctx, ast.Load) and node.id in single:
+                return copy.deepcopy(single[node.id])
+            return node
+    return [ast.fix_missing_locations(T().visit(copy.deepcopy(st))) for st in body]
+
+
+def loop_slice(body, target):
+    """backward slice of one loop iteration: the statements `target` (a name or an element key) depends on"""
+    need, keep = {target}, []
+    for stmt in reversed(body):
+        st, ld = _stores_loads(stmt)
+        if st & need:
+            keep.append(stmt)
+            need |= ld
+    return list(reversed(keep))
+
+
+def emit_loop(repo, o, specs):
+    """translate one iteration of a loop: each spec is (file, function, loop variable, target text, lean name, Fn
+    kwargs, comment).  The unique `for <loop variable> in ...` of the function is located, its body is sliced for the
+    target and read as a function returning the target's value at the end of the iteration."""
+    import os
+    from .translate import parse, find_func
+    for path, fname, loopvar, target, lean, kw, comment in specs:
+        try:
+            tree, _src = parse(os.path.join(repo, path))
+            fn = find_func(tree, fname)
+            loops = [n for n in ast.walk(fn) if isinstance(n, ast.For) and isinstance(n.target, ast.Name)
+                     and n.target.id == loopvar]
+            if len(loops) != 1:
+                raise Untranslatable(f"expected exactly one `for {loopvar} in ...` loop, found {len(loops)}")
+            texpr = ast.parse(target, mode="eval").body
+            key = _elem_name(texpr) if isinstance(texpr, ast.Subscript) else texpr.id
+            body = loop_slice(_inline_index_locals(
+                _resolve_none_tests(list(loops[0].body), kw.get("given", ()), kw.get("absent", ()))), key)
+            if not body:
+                raise Untranslatable(f"`{target}` is not assigned in the loop body")
+            pseudo = ast.FunctionDef(name=fname, args=fn.args, body=body + [ast.Return(value=texpr)], decorator_list=[])
+            ast.fix_missing_locations(pseudo)
+            kw = dict(kw)
+            kw.setdefault("loop_mode", True)
+            text, params = Fn(pseudo, **kw).translate(lean, comment)
+        except (Untranslatable, KeyError, OSError, SyntaxError, AttributeError) as e:
+            o.lines.append(f"-- NOT TRANSLATED: {path}:{fname}[{target}]: {type(e).__name__}: {str(e)[:200]}".replace("\n", " "))
+            o.info[lean] = {"error": str(e)[:200]}
+            continue
+        o.lines.append(text)
+        o.info[lean] = {"params": params}
